@@ -226,6 +226,7 @@ class World:
         self.accept_done = threading.Event()
         self.overlap = {"asyncio": 0, "trio": 0}
         self.helpers = []
+        self.rivals = []
         self.service_classes = {}
         self.callables = {}  # pid -> the callable built for it (handed out again by "adopt_same")
         self.watch_tids = set()  # kernel thread ids whose scheduler statistics the reference loop samples
@@ -849,6 +850,24 @@ def play(world, ops, by):
                         LOG("rejected-runner-shut-down", by=by, gen=world.gen)
                     except BaseException as err:  # noqa: B036
                         LOG("raised", op="shutdown-of-rejected-runner", by=by, gen=world.gen, exc=type(err).__name__, msg=text_of(err)[:200])
+            elif kind == "rival_runtime":
+                # a second, independent runtime in the same process: a bare MetaRunner, which no accept guard covers
+                from cobald.daemon.runners.meta_runner import MetaRunner
+
+                rival = MetaRunner()
+                world.rivals.append(rival)
+
+                def run_rival(rival=rival):
+                    try:
+                        rival.run()
+                        LOG("rival-ended", gen=world.gen, outcome="returned")
+                    except BaseException as err:  # noqa: B036
+                        LOG("rival-ended", gen=world.gen, outcome="raised", exc=type(err).__name__, msg=text_of(err)[:200])
+
+                t = threading.Thread(target=run_rival, daemon=True)
+                t.start()
+                if rival.running.wait(10):
+                    LOG("rival-running", gen=world.gen)
             elif kind == "gc":
                 gc.collect()
             elif kind == "drop_service":
@@ -923,6 +942,11 @@ def driver(world):
                 LOG("raised", op="shutdown", by="harness", gen=world.gen, exc=type(err).__name__, msg=text_of(err)[:300])
             else:
                 LOG("return", op="shutdown", by="harness", gen=world.gen)
+    for rival in world.rivals:
+        try:
+            rival.stop()
+        except BaseException as err:  # noqa: B036
+            LOG("raised", op="stop-of-rival", by="harness", gen=world.gen, exc=type(err).__name__, msg=text_of(err)[:200])
     LOG("driver-done", gen=world.gen)
 
 
